@@ -36,3 +36,9 @@ M("c11-13-digit-limit", ["C11"], "decoder rejects 13-digit values (limit off by 
   ("src/vlq.rs", "cur += val.checked_shl(shift).ok_or(Error::VlqOverflow)?;", "if shift >= 60 { return Err(Error::VlqOverflow); }\n        cur += val.checked_shl(shift).ok_or(Error::VlqOverflow)?;"))
 M("c11-table-swap", ["C11"], "one swapped pair in the reverse table (+ and /)",
   ("src/vlq.rs", "    -1,\n    62,\n    -1,\n    -1,\n    -1,\n    63,", "    -1,\n    63,\n    -1,\n    -1,\n    -1,\n    62,"))
+
+# ---- C16 -------------------------------------------------------------------------------
+M("c16-no-recheck-under-lock", ["C16"], "remove the re-check of the line index under the indexing lock (original check-then-lock race)",
+  ("src/sourceview.rs", "        if let Some(&line) = lines.get(idx) {\n            return Some(line);\n        }\n        if self.processed_until.load(Ordering::Relaxed) > self.source.len() {\n            return None;\n        }\n        let mut done = false;", "        let mut done = false;"))
+M("c16-stale-finished-check", ["C16"], "finished check answers None without looking at the lines again",
+  ("src/sourceview.rs", "            return self.lines.lock().unwrap().get(idx).copied();", "            return None;"))
